@@ -9,7 +9,11 @@ use crate::refmodel::value::RV;
 use crate::rng::Rng;
 use evalexpr::{ContextWithMutableVariables, EmptyContextWithBuiltinFunctions, Node};
 
-pub const NON_BUILTINS: [&str; 6] = ["foo", "math::nope", "Typeof", "random", "str::regex_matches", "str::regex_replace"];
+pub const NON_BUILTINS: [&str; 18] = [
+    "foo", "math::nope", "Typeof", "random", "str::regex_matches", "str::regex_replace",
+    // aliases under another namespace must be unknown
+    "math::floor", "math::round", "math::ceil", "math::min", "math::max", "math::if", "math::len", "str::len", "sqrt", "abs", "trim", "from",
+];
 
 pub fn names() -> Vec<&'static str> {
     let mut v: Vec<&'static str> = BUILTINS.to_vec();
@@ -435,12 +439,25 @@ impl Phase for LargeArgs {
                 RV::Tuple(vec![RV::Tuple(v), needle])
             },
             "contains_any" => {
-                let v = nums(r, size);
+                let mut v = nums(r, size);
+                // signed zeros and NaN: found by the language's ==, not by identity or text
+                for z in [RV::Float(0.0), RV::Float(-0.0), RV::Float(f64::NAN), RV::Int(0)] {
+                    if r.chance(1, 2) {
+                        let p = r.below(v.len());
+                        v[p] = z;
+                    }
+                }
                 let nn = r.range(1, 40);
                 let mut ns = nums(r, nn);
                 if r.chance(1, 2) {
                     let k = ns.len() - 1;
                     ns[k] = v[size - 1].clone();
+                }
+                if r.chance(1, 2) {
+                    ns = vec![r.pick(&[RV::Float(0.0), RV::Float(-0.0), RV::Float(f64::NAN), RV::Int(0)]).clone()];
+                    while ns.len() * v.len() <= 1100 && ns.len() < 40 {
+                        ns.push(RV::Int(987654321 + ns.len() as i64));
+                    }
                 }
                 RV::Tuple(vec![RV::Tuple(v), RV::Tuple(ns)])
             },
